@@ -712,15 +712,34 @@ func ruleIDFragmentRefused(c *Ctx, rule string) {
 			}
 			n++
 			refused := false
+			isFragTest := func(g guardAtom) bool {
+				bo, ok := g.Cond.(*ssa.BinOp)
+				if !ok || !((bo.Op == token.NEQ && g.Pol) || (bo.Op == token.EQL && !g.Pol)) {
+					return false
+				}
+				for _, pair := range [][2]ssa.Value{{bo.X, bo.Y}, {bo.Y, bo.X}} {
+					if k, isK := constString(pair[1]); !isK || k != "" {
+						continue
+					}
+					if ld, isLd := pair[0].(*ssa.UnOp); isLd && ld.Op == token.MUL {
+						if fa2, isFA := ld.X.(*ssa.FieldAddr); isFA && isNamed(derefType(fa2.X.Type()), "net/url", "URL") && core.CanonFieldOf(fa2.X.Type(), fa2.Field) == "Fragment" {
+							return true
+						}
+					}
+				}
+				return false
+			}
+			// the refusal: an error return reached exactly under "the parsed $id has a fragment" and "the draft is 2020-12",
+			// standing in front of the store (its tests hang off a block that every path to the store passes)
 			for _, b := range fn.Blocks {
-				ifi, ok := b.Instrs[len(b.Instrs)-1].(*ssa.If)
-				if !ok || !core.Reachable(b, st.Block(), nil) {
+				if len(b.Preds) != 1 || len(b.Instrs) == 0 || !(blockReturnsErrorLocal(b) || blockReturnsErrorDeepLocal(b)) {
 					continue
 				}
-				// (the test stands under the draft test: `draft == 2020 && fragment != ""`; the draft test, a step or two
-				// up the dominator tree, is what every path to the store passes)
+				if !core.Reachable(b.Preds[0], st.Block(), nil) {
+					continue
+				}
 				near := false
-				for d, hops := b, 0; d != nil && hops < 4; d, hops = d.Idom(), hops+1 {
+				for d, hops := b.Preds[0], 0; d != nil && hops < 5; d, hops = d.Idom(), hops+1 {
 					if d.Dominates(st.Block()) {
 						near = true
 						break
@@ -729,29 +748,13 @@ func ruleIDFragmentRefused(c *Ctx, rule string) {
 				if !near {
 					continue
 				}
-				bo, ok := ifi.Cond.(*ssa.BinOp)
-				if !ok || (bo.Op != token.NEQ && bo.Op != token.EQL) {
-					continue
-				}
-				isFrag := false
-				for _, pair := range [][2]ssa.Value{{bo.X, bo.Y}, {bo.Y, bo.X}} {
-					if k, isK := constString(pair[1]); !isK || k != "" {
-						continue
-					}
-					if ld, isLd := pair[0].(*ssa.UnOp); isLd && ld.Op == token.MUL {
-						if fa2, isFA := ld.X.(*ssa.FieldAddr); isFA && isNamed(derefType(fa2.X.Type()), "net/url", "URL") && core.CanonFieldOf(fa2.X.Type(), fa2.Field) == "Fragment" {
-							isFrag = true
-						}
+				frag := false
+				for _, g := range guardsOf(b.Instrs[0]) {
+					if isFragTest(g) {
+						frag = true
 					}
 				}
-				if !isFrag {
-					continue
-				}
-				nonEmpty := b.Succs[0]
-				if bo.Op == token.EQL {
-					nonEmpty = b.Succs[1]
-				}
-				if (blockReturnsErrorLocal(nonEmpty) || blockReturnsErrorDeepLocal(nonEmpty)) && c.guardedByDraft(ifi, "draft2020") {
+				if frag && c.guardedByDraft(b.Instrs[0], "draft2020") {
 					refused = true
 				}
 			}
